@@ -7,10 +7,12 @@ pub mod c06;
 pub mod c07;
 pub mod c08;
 pub mod c09;
+pub mod c10;
+pub mod c15;
 
 use crate::engine::Env;
 
-pub const ALL: [&str; 9] = ["C01", "C02", "C03", "C04", "C05", "C06", "C07", "C08", "C09"];
+pub const ALL: [&str; 11] = ["C01", "C02", "C03", "C04", "C05", "C06", "C07", "C08", "C09", "C10", "C15"];
 
 /// run (or, with env.register_only, just register) every sub-check of a property
 pub fn run(id: &str, env: &mut Env) -> bool {
@@ -24,6 +26,8 @@ pub fn run(id: &str, env: &mut Env) -> bool {
         "C07" => c07::run(env),
         "C08" => c08::run(env),
         "C09" => c09::run(env),
+        "C10" => c10::run(env),
+        "C15" => c15::run(env),
         _ => return false,
     }
     true
@@ -41,6 +45,8 @@ pub fn rule(id: &str) -> String {
         "C07" => "Complete enumeration of all ordered pairs of days inside multi-year windows (a modern window with a leap year, the era boundary, BC leap years), row by row (fixed b, every a), for Date and - with three times of day on both sides - for DateTime; plus seeded random pairs over the whole range (half of them a few months apart with day of month and time of day within +-1 of each other) and random rows. Oracle per pair: antisymmetry of months_since and years_since (all pairs); when the earlier value's day of month is <= 28, the bracket model.add_months(b, n) <= a < model.add_months(b, n+1) on the instants and years == n / 12; along each row monotonicity in a. The model's month arithmetic is used, never the crate's. Non-trivial pair: same year with a day/time borrow, across a leap day, across the era, same date with different time of day. Row cases count their non-trivial pairs by construction.",
         "C08" => "Model-based histories on Time: a start value (boundary-dense time of day, optional offset) followed by up to 12 operations from add_/sub_ x 6 units x u32 counts, Time +/- Time, Time +/- Duration (0 .. 2^64 s), the *Assign forms, the six setters (in and out of range), the six clear_until_*, set_offset, as_offset, Time::from(DateTime) of any era, parse(format(..)); the reference state is (nanoseconds mod 24 h, offset) and after EVERY step as_nanos() < 24 h, as_nanos(), get_offset(), as_hms(), the six local getters and equality with a freshly built Time are compared with it. Single-operation histories are also enumerated from every (97th in quick) second of the day x four sub-second values. Constructors from_hms/from_seconds/from_nanos over boundary-dense u32/u64 arguments accept exactly in-day values. Non-trivial: a step wrapping past midnight in either direction, amount >= 2^63 ns, operands summing to >= 24 h, subtraction below zero, duration >= 24 h, Time from a BC DateTime, set/clear under an offset.",
         "C09" => "Cases (instant, offset, operation, candidate): the 10 setters and 9 clear_until_* on DateTime with any offset in +-23:59:59 (UTC time of day biased to within |offset| of midnight so that the local date differs from the UTC date; month/year ends, Feb 29 AD and BC, sub-second remainders), the date setters/clears on Date, the time setters/clears on Time; candidates min, min+1, max-1, max, max+1, min-1, the current value, 2^31, 2^32-1, typical wrong guesses, random. Oracle: local-field model (apply offset -> edit exactly that field -> remove offset); valid => Ok, all getters of the result read the edited local fields, offset unchanged, instant = local - offset; invalid => Err(OutOfRange). Target local dates within 2 days of a range end are skipped as unspecified. Non-trivial: local date != UTC date, Feb 29 involved, BC, refused candidate, candidate at max/max+1, Time wrapping under its offset.",
+        "C10" => "(instant, offset) pairs: every 61st (quick) or every (thorough) offset in -86399..=86399 x 64 fixed instants (range ends +-2 days, era boundary, leap days, year ends, 4 times of day) and x 64 times of day, plus seeded random pairs with the UTC time of day biased to within |offset| of midnight. set_offset: timestamp, instant, ==, cmp, every *_since (= 0), duration_between unchanged; all 11 getters and the rendering of yyyy-MM-dd HH:mm:ss.nnnnn xxxxx equal the model's fields of instant + offset. as_offset (on offset-0 values): getters unchanged, instant moved by -offset, get_offset = offset. Same for Time modulo 24 h. Offset::from_seconds / from_hms over boundary-dense i32/u32 arguments: accepted exactly inside +-23:59:59, resolve()/resolve_hms() return what was given. Non-trivial: offset not a whole hour, local date != UTC date (month/year end, day 0 crossings), Time wrap-around, constructor arguments at the edge or one step outside.",
+        "C15" => "Argument tuples for every public Result-returning constructor and setter (Date/DateTime::from_ymd, from_ymdhms, DateTime/Time::from_hms, Time::from_seconds/from_nanos, Offset::from_seconds/from_hms, the 10 DateTime setters, 4 Date setters and 6 Time setters on boundary-dense receivers with offsets): each argument from min, max, max+1, min-1, max-1, 0, 1, 2^31-1, 2^31, 2^32-1, values whose products wrap modulo 2^32, type extremes, random; half of the cases keep all but one argument valid. Oracle: Ok iff the model says valid, value equal to the model's for the unwrapped arguments, Err is OutOfRange, no panic. Metamorphic message check: when Display has the form '<name> must be in the range A..=B' and <name> is an argument of the call, the rejected value lies outside [A,B] and, over a sweep of ~45 alternative values of that argument with the others fixed, every accepted value lies inside [A,B]. Non-trivial: exactly one argument one step outside its range, an argument >= 2^31, a conditional range (month length, range-end year), a message whose range was checked.",
         _ => "",
     }
     .to_string()
